@@ -836,9 +836,15 @@ fn osu_c13<const LAZER: bool, const NMAX: u32, const LO: usize, const HI: usize>
     let d_gen = (st.accuracy(origin) - target).abs();
     let d_other = (other.accuracy(origin) - target).abs();
     assert!(d_gen <= d_other + TIE_EPS, "C13 osu: generated accuracy is the closest achievable");
-    kani::cover!(n >= 3 && st.n100 > 0 && st.n50 > 0, "mixed distribution");
+    kani::cover!(n >= 2 && st.n300 < n && st.n300 + st.misses < n, "non-trivial distribution");
     kani::cover!(n == NMAX && st.misses > 0, "largest shape with misses");
     core::mem::forget(p);
+}
+
+#[kani::proof]
+#[kani::unwind(5)]
+pub fn c13_osu_stable_n3() {
+    osu_c13::<false, 3, 0, 2>();
 }
 
 #[kani::proof]
@@ -866,7 +872,7 @@ pub fn c13_osu_lazer_q() {
 }
 
 verif_replay_table!(verif_replay_c12;
-    c13_osu_stable_q, c13_osu_lazer_q, c13_osu_stable_n4, c13_osu_lazer_n3,
+    c13_osu_stable_q, c13_osu_lazer_q, c13_osu_stable_n4, c13_osu_lazer_n3, c13_osu_stable_n3,
     c12_osu_noacc_full, c12_taiko_noacc_full, c12_catch_noacc_full, c12_mania_noacc_full,
     c12_mania_acc_given_all, c12_mania_acc_missing_n320, c12_mania_acc_missing_n300,
     c12_mania_acc_missing_n200, c12_mania_acc_missing_n100, c12_mania_acc_missing_n50,
